@@ -87,7 +87,15 @@ def generalise(draw, s, vars_ts, vars_sc, vars_sz, depth=0):
     k = s[0]
 
     def sp(t):
-        return ("v", draw(st.sampled_from(vars_sc))) if draw(st.booleans()) else ("c", t)
+        if draw(st.booleans()):
+            name = draw(st.sampled_from(vars_sc))
+            if draw(st.integers(0, 3)) == 0:
+                # a CONSTRAINED variable (~T:{int,str}): it accepts only the listed scalar types, also at a position where it
+                # is already bound by an earlier, unconstrained occurrence of the same name
+                cons = tuple(sorted(draw(st.sets(st.sampled_from(SCALARS), min_size=1, max_size=2))))
+                return ("v", name, cons)
+            return ("v", name)
+        return ("c", t)
     if k == "SC":
         return ("scalar", sp(s[1]))
     if k == "TS":
@@ -112,9 +120,9 @@ def pat_json(p):
     if k == "var":
         return {"k": "var", "n": p[1]}
     if k in ("ts", "tss"):
-        return {"k": k, "e": ({"c": p[1][1]} if p[1][0] == "c" else {"v": p[1][1]})}
+        return {"k": k, "e": ({"c": p[1][1]} if p[1][0] == "c" else {"v": p[1][1], **({"cons": list(p[1][2])} if len(p[1]) > 2 else {})})}
     if k == "tsd":
-        return {"k": "tsd", "key": ({"c": p[1][1]} if p[1][0] == "c" else {"v": p[1][1]}), "v": pat_json(p[2])}
+        return {"k": "tsd", "key": ({"c": p[1][1]} if p[1][0] == "c" else {"v": p[1][1], **({"cons": list(p[1][2])} if len(p[1]) > 2 else {})}), "v": pat_json(p[2])}
     if k == "tsl":
         return {"k": "tsl", "e": pat_json(p[1]), "n": p[2]}
     if k == "tslv":
@@ -151,6 +159,19 @@ def pat_vars(p, out=None):
     elif k == "ref":
         pat_vars(p[1], out)
     return out
+
+
+def has_constrained(p):
+    k = p[0]
+    if k in ("ts", "tss", "tsd", "scalar") and p[1][0] == "v" and len(p[1]) > 2:
+        return True
+    if k == "tsd":
+        return has_constrained(p[2])
+    if k in ("tsl", "tslv", "ref"):
+        return has_constrained(p[1])
+    if k == "tsb":
+        return any(has_constrained(c) for _, c in p[1])
+    return False
 
 
 def has_special(p):
@@ -217,6 +238,8 @@ def unify(p, s, b):
     def sc(sp_, t):
         if sp_[0] == "c":
             return sp_[1] == t
+        if len(sp_) > 2 and t not in sp_[2]:
+            return False            # outside the variable's constraints - whether or not the variable is bound already
         key = ("sc", sp_[1])
         if key in b:
             return b[key] == t
@@ -523,7 +546,8 @@ def check(case, ctx) -> Result:
         res.violations.append(Viol("engine_crash", f"resolve died: {resp.get('signal')} {resp.get('stderr', '')[-400:]}"))
         return res
     ranks = resp["ranks"]
-    special = [any(has_special(p) for p in c["params"]) for c in fam]
+    loose = [any(has_special(p) for p in c["params"]) for c in fam]            # REF / SIGNAL / unsized wildcard: matching is looser than unify()
+    special = [l_ or any(has_constrained(p) for p in c["params"]) for l_, c in zip(loose, fam)]   # ... plus constrained variables: no part in the instance order
     nontriv = False
     for ci, call in enumerate(calls):
         outs = [resp["results"][oi][ci] for oi in range(len(case["orders"]))]
@@ -567,7 +591,7 @@ def check(case, ctx) -> Result:
                                                                                                                          instance_has_bundle_of_vars=bundle_of_two_vars(a if cand_instance_of(a, b2) else b2))))
             continue
         win = by_label[o["win"]]
-        if o["win"] not in matches and not special[fam.index(win)]:
+        if o["win"] not in matches and not loose[fam.index(win)]:
             res.violations.append(Viol("winner_does_not_match", f"call {[sstr(s) for s in call]}: winner {win['label']} {win['params']} does not unify with the arguments", feats))
             continue
         if o["win"] in matches and not has_special(win["out"]):
